@@ -190,8 +190,17 @@ func mutate(src string, m *mutation) string {
 	case "unbalance":
 		br := []string{"{", "}", "(", ")", "[", "]", "\"", "/"}[m.N%8]
 		return src[:pos] + br + src[pos:]
-	case "nest": // an expression nested n levels deep, beyond the recursion limit for large n
-		return src + "gauge nestg\n/x/ {\n  nestg = " + strings.Repeat("(", m.N) + "1" + strings.Repeat(" + 1)", m.N) + "\n}\n"
+	case "nest": // an expression nested n levels deep, beyond the recursion limit for large n; several tree shapes
+		switch m.At % 4 {
+		case 0:
+			return src + "gauge nestg\n/x/ {\n  nestg = " + strings.Repeat("(", m.N) + "1" + strings.Repeat(" + 1)", m.N) + "\n}\n"
+		case 1: // a chain of unary operators
+			return src + "gauge nestg\n/(\\d+)/ {\n  nestg = " + strings.Repeat("~", m.N) + "$1\n}\n"
+		case 2: // a left-deep chain of logical operators over comparisons
+			return src + "counter nestc\n/(\\d+)/ && " + strings.Repeat("$1 > 0 && ", m.N) + "$1 > 0 {\n  nestc++\n}\n"
+		default: // nested blocks
+			return src + "counter nestb\n" + strings.Repeat("/x/ {\n", m.N) + "nestb++\n" + strings.Repeat("}\n", m.N)
+		}
 	case "longregex":
 		return src + "/" + strings.Repeat("a?", m.N) + "/ {\n}\n"
 	}
